@@ -24,6 +24,11 @@ def classify(specs, ext=None):
     a = sum(specs[i][1] for i in A)
     if p > 100 + TOL:
         return ("contradictory", "percentages exceed 100")
+    # percentages that sum to 100 only up to rounding (14.285714285714286 + 85.71428571428572): whether 0 %, a tiny positive or a
+    # tiny negative share is left for the other components is decided by the last bit - outside the domain (positive shares)
+    exact = all(float(specs[i][1]) == int(specs[i][1]) for i in P)
+    if P and abs(p - 100.0) <= TOL and (N or A) and not (exact and p == 100.0 and not N):
+        return ("degenerate", "percentages sum to 100 within rounding while further components exist")
     S = None
     if ext is not None:
         S = float(ext)
